@@ -585,7 +585,8 @@ def run_api_period(acc, case, selector, ops, chosen, chosen_name, e):
     if not check_period_log(acc, case, list(sel_rt.LOG), chosen, chosen_name, n_iter, "start/periodic/disable period", t_start, t_iters,
                             disabled=was_disabled):
         return "violation"
-    case["_undisabled"] = None if was_disabled else getattr(selector.active_mode, "ident", None)
+    # (taken from the harness's own log, not from the selector's attributes: how it keeps its state is its own business)
+    case["_undisabled"] = None if was_disabled else next((x[1] for x in sel_rt.LOG if x[0] == "on_enable"), None)
     return "ok"
 
 
